@@ -156,6 +156,8 @@ def run(ctx):
                 return i
         raise vlib.Infra("generator did not produce the %s behaviour %s" % (dim, seq))
     partners = ["add256", "xor256", "xorhi", "xorlo", "swap", "lowonly", "hionly", "neg", "xor8000", "inc", "zero", "max", "shl8"]
+    if not T:
+        partners = partners[:9]
     seqs = ["ab"] if not T else ["ab", "abab", "abba", "aabb", "baab"]
     sweeps, mass = [], []
     base = cl.plain_map()
